@@ -278,7 +278,31 @@ def classification : List (PanicSite × SiteClass) := [
   (⟨"src/cli/src/main.rs", "parse_encrypt", "unwrap", "_.opt_str(\"f\").unwrap()"⟩,
     .offPath "command-line options: not one of C09's input classes"),
   (⟨"src/cli/src/main.rs", "parse_decrypt", "unwrap", "_.opt_str(\"t\").unwrap()"⟩,
-    .offPath "command-line options: not one of C09's input classes")]
+    .offPath "command-line options: not one of C09's input classes"),
+  (⟨"src/crypto/src/noise.rs", "encrypt_with_ad", "expect", "self.key.as_ref().expect(_)"⟩,
+    .offPath "sender side only (write_message): the cipher state has a key after the first mix_key; not reachable from an input class of C09"),
+  (⟨"src/crypto/src/noise.rs", "rekey", "panic", "unimplemented!(\"_\")"⟩,
+    .offPath "dead code (#[allow(dead_code)]): never called"),
+  (⟨"src/crypto/src/noise.rs", "mix_key_and_hash", "panic", "unimplemented!(\"_\")"⟩,
+    .offPath "dead code (#[allow(dead_code)]): never called"),
+  (⟨"src/crypto/src/noise.rs", "write_message", "expect", "self.message_patterns.pop_front().expect(_)"⟩,
+    .offPath "sender side only (write_message builds a message from the caller's own keys): not reachable from an input class of C09"),
+  (⟨"src/crypto/src/noise.rs", "write_message", "unwrap", "self.e.as_ref().unwrap()"⟩,
+    .offPath "sender side only (write_message builds a message from the caller's own keys): not reachable from an input class of C09"),
+  (⟨"src/crypto/src/noise.rs", "write_message", "unwrap", "self.s.as_ref().unwrap()"⟩,
+    .offPath "sender side only (write_message builds a message from the caller's own keys): not reachable from an input class of C09"),
+  (⟨"src/crypto/src/noise.rs", "write_message", "panic", "unimplemented!(\"_\")"⟩,
+    .offPath "sender side only (write_message builds a message from the caller's own keys): not reachable from an input class of C09"),
+  (⟨"src/crypto/src/noise.rs", "write_message", "unwrap", "self.e.as_ref().unwrap()"⟩,
+    .offPath "sender side only (write_message builds a message from the caller's own keys): not reachable from an input class of C09"),
+  (⟨"src/crypto/src/noise.rs", "write_message", "unwrap", "self.rs.as_ref().unwrap()"⟩,
+    .offPath "sender side only (write_message builds a message from the caller's own keys): not reachable from an input class of C09"),
+  (⟨"src/crypto/src/noise.rs", "write_message", "panic", "unimplemented!(\"_\")"⟩,
+    .offPath "sender side only (write_message builds a message from the caller's own keys): not reachable from an input class of C09"),
+  (⟨"src/crypto/src/noise.rs", "write_message", "unwrap", "self.s.as_ref().unwrap()"⟩,
+    .offPath "sender side only (write_message builds a message from the caller's own keys): not reachable from an input class of C09"),
+  (⟨"src/crypto/src/noise.rs", "write_message", "unwrap", "self.rs.as_ref().unwrap()"⟩,
+    .offPath "sender side only (write_message builds a message from the caller's own keys): not reachable from an input class of C09")]
 
 /-- (fn name, site label) for every modelled site -/
 def modelledSites : List (String × String) :=
@@ -311,8 +335,8 @@ set_option maxRecDepth 100000 in
     `unwrap` replaced by `?`) keeps the inclusion. -/
 theorem C09_sites_covered : subMultiset panicSites (classification.map (·.1)) = true := by decide
 
-theorem C09_site_counts : modelledSites.length = 59 ∧ contractSites.length = 10 ∧ offPathSites.length = 13 ∧
-    classification.length = 82 := by decide
+theorem C09_site_counts : modelledSites.length = 59 ∧ contractSites.length = 10 ∧ offPathSites.length = 25 ∧
+    classification.length = 94 := by decide
 
 /-! ### non-vacuity 1: the hypotheses are satisfiable (concrete and toy instances), and `.val` is not always an error -/
 
